@@ -132,6 +132,17 @@ CLAIMED.update({
         ref="DESIGN.md 3/C04"),
 })
 
+CLAIMED.update({
+    "C05": dict(
+        text="Clause-restricted. Proof on the real code: the `from m import *` exposure table (is_wildcard_exposed), _expand_wildcard = order-preserving filter by exposure carrying "
+             "the statement span, the merge rule of expand_wildcards for one arbitrary wildcard statement and exposed name (never raises, self-alias never created, new names "
+             "added as aliases to the exposed object under the importing module, statement removed iff expanded), every forwarding property of Alias (list read from the "
+             "real class body) presents the final target's value or raises only the alias errors, Alias.members rebased under the alias. "
+             "Equality of the composition with CPython's importer is a bounded native tier.",
+        note="External package loading assumed done; set_member/del_member/get_member by contract (C16). Fixed: C05-F1 (expand_exports early return).",
+        ref="DESIGN.md 3/C05"),
+})
+
 NA_REASON = {
     "C17": "relates two whole-program analyses through CPython's run-time object model; a contract for the inspector would have to assume the very "
            "object model the property compares against, so no obligation over /repo code alone implies agreement (DESIGN.md section 4)",
